@@ -11,6 +11,7 @@ Results go to seeded/RESULTS.md.  Scratch copies live under $TMPDIR and are remo
 usage: tools/seeded_eval.py [--only NAME] [--all] [--tier quick|thorough] [--skip-tests]
 """
 import json
+import re
 import os
 import shutil
 import subprocess
@@ -59,7 +60,7 @@ def main():
     try:
         for name in sorted(os.listdir(sdir)):
             d = os.path.join(sdir, name)
-            if not os.path.isdir(d) or (only and only not in name):
+            if not os.path.isdir(d) or (only and (only != name if re.fullmatch(r'C\d\d-\d+', only) else only not in name)):
                 continue
             meta = json.load(open(os.path.join(d, "meta.json")))
             prop = meta["property"]
